@@ -15,10 +15,9 @@ CFG = dict(
         "Props.C09.record_varlen_spec", "Props.C09.record_roundtrip", "Props.C09.batch_length_overhead",
         "Props.C09.batch_crc_covers", "Props.C09.message_crc_covers",
         "Props.C09.recordbatch_roundtrip", "Props.C09.recordbatch_roundtrip_uncompressed",
-        "Props.C09.recordbatch_count_guard",
         "Props.C09.message_roundtrip", "Props.C09.messageset_roundtrip", "Props.C09.messageset_wrapper_inner",
         "Props.C09.records_magic_dispatch", "Props.C09.machine_encode", "Props.C09.machine_prep_fresh",
-        "Bridge.C09.recordBatchOverhead_eq", "Bridge.C09.magicOffset_eq", "Bridge.C09.attribute_masks_eq",
+        "Bridge.C09.recordBatchOverhead_eq", "Bridge.C09.maximumRecordOverhead_eq", "Bridge.C09.magicOffset_eq", "Bridge.C09.attribute_masks_eq",
         "Bridge.C09.tags_distinct", "Bridge.C09.prepPutInt_eq", "Bridge.C09.lengthFieldCheck_eq",
         "Bridge.C09.varintAdjust_eq", "Bridge.C09.prep_pop_varlen", "Bridge.C09.varintCheck_eq",
         "Bridge.C09.compactArrayLength_eq", "Bridge.C09.compactArrayLength_err", "Bridge.C09.arrayLengthGuard_eq"],
